@@ -215,11 +215,30 @@ SRCE_UNITS = [
     (IPFILE, "pysrc_subnet_gen.v", "", " Model.PySlice Model.ListLike Model.SrcPreludeSRCE",
      [("IPNetwork", "subnet:start", {"prefixlen": "int", "count": "optint", "fmt": "optint"}), ("IPNetwork", "subnet:next", {}),
       ("IPNetwork", "next", {"step": "int"}), ("IPNetwork", "previous", {"step": "int"}), ("IPNetwork", "iter_hosts", {})]),
+    # C10: the generator iter_iprange (its arguments are IPAddress objects), IPListMixin.__iter__ / __nonzero__ for the receiver
+    # classes IPNetwork and IPRange
+    (IPFILE, "pysrc_iter_gen.v", "", " Model.PySlice Model.ListLike Model.SrcPreludeSRCE",
+     [(None, "iter_iprange:start", {"start": "obj", "end": "obj", "step": "int"}), (None, "iter_iprange:next", {})] +
+     [(c, m, {}) for c in ("IPNetwork", "IPRange") for m in ("__iter__", "__nonzero__")]),
+    # C04: the three matching functions (`ip` an IPAddress object, `cidrs` a list of IPNetwork objects) and IPListMixin.__contains__
+    # (`:mixin` = the definition of IPListMixin itself for a receiver class that overrides it)
+    (IPFILE, "pysrc_match_gen.v", "", " Model.Contains Model.SrcPreludeSRCE Model.SrcPreludeMatch",
+     [(c, "__contains__:mixin", {"other": "operand"}) for c in ("IPNetwork", "IPRange")] +
+     [(None, f, {"ip": "obj", "cidrs": "list net"}) for f in ("all_matching_cidrs", "smallest_matching_cidr", "largest_matching_cidr")]),
+    # C12: the rich comparisons and __hash__ of BaseIP for the three receiver classes, IPRange.sort_key (core.num_bits = py_num_bits)
+    (IPFILE, "pysrc_cmp_gen.v", "", " Model.SrcPreludeSRCE Model.SrcPreludeCmp",
+     [("IPRange", "sort_key", {})] +
+     [(c, m, {"other": "operand"}) for c in ("IPAddress", "IPNetwork", "IPRange")
+      for m in ("__eq__", "__ne__", "__lt__", "__le__", "__gt__", "__ge__")] +
+     [(c, "__hash__", {}) for c in ("IPAddress", "IPNetwork", "IPRange")] + [("IPAddress", "__long__", {})]),
 ]
 UNITS = UNITS + SRCE_UNITS
 FILES = FILES + tuple(u[1] for u in SRCE_UNITS)
 FUEL.update({(None, "cidr_merge", 2): ("len(ranges)", 1)})      # the backward scan runs at most len(ranges) - 1 times
-SRCE_TYPES = {"mitem": "mitem", "rtup": "rtuple", "ipstr": "Z"}   # new value types -> their Coq types
+SRCE_TYPES = {"mitem": "mitem", "rtup": "rtuple", "ipstr": "Z", "optnet": "(option net)",
+              "objv": "(Z * Z)", "hashfn": "(list Z -> Z)"}   # new value types -> their Coq types (objv: an IPAddress object carried through a loop as its pair)
+# declared types of locals that start as None: (receiver, function, local) -> type (`optnet`: None or an IPNetwork object)
+SRCE_LOCALS = {(None, "smallest_matching_cidr", "match"): "optnet", (None, "largest_matching_cidr", "match"): "optnet"}
 
 EXN = ("AddrFormatError", "AddrConversionError", "ValueError", "TypeError", "IndexError", "KeyError", "StructError",
        "NotRegisteredError", "AttributeError", "OverflowError")
@@ -1958,7 +1977,35 @@ class Fn:
 # here is additive: a construct FnE does not recognise goes to the base class unchanged, and only the units of SRCE_UNITS use FnE.
 COQTY.update(SRCE_TYPES)
 RESERVED |= set("mitem MNet MRange rtuple py_index py_setitem py_delitem py_net_of_addr py_net_of_cidr_text py_gen_take "
-                "py_sort_ranges nth_o set_nth del_nth py_norm_index".split())
+                "py_sort_ranges nth_o set_nth del_nth py_norm_index py_sorted_nets py_num_bits hash_ "
+                "py_tuple_eq py_tuple_ne py_tuple_lt py_tuple_le py_tuple_gt py_tuple_ge".split())
+TUPLE_CMP = {ast.Eq: "py_tuple_eq", ast.NotEq: "py_tuple_ne", ast.Lt: "py_tuple_lt", ast.LtE: "py_tuple_le", ast.Gt: "py_tuple_gt",
+             ast.GtE: "py_tuple_ge"}
+
+
+def core_num_bits_ok():
+    """is netaddr.core.num_bits still `def num_bits(int_val): return int_val.bit_length()` (first definition, inside the module's
+    `try:` that probes for int.bit_length; the fallback loop under `except AttributeError` is dead on every supported Python)?"""
+    fn = "netaddr/core.py"
+    tree = ast.parse(open(os.path.join(REPO, fn), encoding="utf-8").read())
+    tries = [t for t in tree.body if isinstance(t, ast.Try) and any(isinstance(n, ast.FunctionDef) and n.name == "num_bits" for n in ast.walk(t))]
+    defs = [n for n in ast.walk(tree) if isinstance(n, ast.FunctionDef) and n.name == "num_bits"]
+    other = [n for n in ast.walk(tree) if isinstance(n, ast.Name) and n.id == "num_bits" and isinstance(n.ctx, ast.Store)]
+    ok = len(tries) == 1 and not other and 1 <= len(defs) <= 2
+    if ok:
+        d = [st for st in tries[0].body if isinstance(st, ast.FunctionDef) and st.name == "num_bits"]
+        hs = tries[0].handlers
+        ok = (len(d) == 1 and len(hs) == 1 and dotted(hs[0].type) == "AttributeError" and not tries[0].orelse and not tries[0].finalbody
+              and all(n in d or any(n in ast.walk(h) for h in hs) for n in defs))
+    if ok:
+        body = [st for st in d[0].body if not (isinstance(st, ast.Expr) and isinstance(st.value, ast.Constant))]
+        a = d[0].args
+        ok = (len(a.args) == 1 and not (a.vararg or a.kwarg or a.kwonlyargs or a.defaults) and not d[0].decorator_list and len(body) == 1
+              and isinstance(body[0], ast.Return) and isinstance(body[0].value, ast.Call) and not body[0].value.args
+              and not body[0].value.keywords and dotted(body[0].value.func) == a.args[0].arg + ".bit_length")
+    if not ok:
+        bad(defs[0] if defs else None, "core.num_bits is not `return int_val.bit_length()` the way the translator assumes", fn)
+    return True
 _is_value_base, _assigned_names_base = is_value, assigned_names
 
 
@@ -2045,12 +2092,11 @@ class FnE(Fn):
         return out
 
     def what(self):
-        w = super().what()
-        if self.variant in ("start", "next"):
-            w = w.split(", specialised to")[0] + (", generator prologue" if self.variant == "start" else ", one resumption of the generator")
-        if self.variant == "mixin":
-            w = w.split(", specialised to")[0]
-        return w
+        if self.variant not in ("start", "next", "mixin"):
+            return super().what()
+        w = self.pyname if self.recv is None else "%s.%s" % (self.owner, self.pyname)
+        w += {"start": ", generator prologue", "next": ", one resumption of the generator", "mixin": ""}[self.variant]
+        return w + (", receiver class %s" % self.recv if self.recv is not None and self.owner != self.recv else "")
 
     def owned(self, x):
         """as Fn.owned; the yielded object may also be named (it leaves the function there)"""
@@ -2074,7 +2120,13 @@ class FnE(Fn):
 
     def boolop_sc(self, node, env):
         """`a and b` / `a or b` whose later operands can raise: short-circuit evaluation in `outcome`"""
-        first = self.bool_(node.values[0], env)
+        isand, v0, refined = isinstance(node.op, ast.And), node.values[0], None
+        if isand and self.is_not_none(v0, env):          # `x is not None and ..` for x : None or an IPNetwork: x is the object from there on
+            refined, env = (env[v0.left.id][1], self.fresh()), dict(env)
+            env[v0.left.id] = ("net", refined[1])
+            first = None
+        else:
+            first = self.bool_(node.values[0], env)
         parts = []
         for x in node.values[1:]:
             saved, self.pre, nh, self.nohoist = self.pre, [], self.nohoist, 0
@@ -2083,12 +2135,18 @@ class FnE(Fn):
             finally:
                 inner, self.pre, self.nohoist = self.pre, saved, nh
             parts.append((inner, t))
-        isand = isinstance(node.op, ast.And)
         acc = None
         for inner, t in reversed(parts):
             tail = "Ok %s" % t if acc is None else ("(if %s then %s else Ok false)" if isand else "(if %s then Ok true else %s)") % (t, acc)
             acc = self.inline_pre(inner, tail)
+        if refined:
+            return ("out", "bool", "(match %s with Some %s => %s | None => Ok false end)" % (refined[0], refined[1], acc))
         return ("out", "bool", ("(if %s then %s else Ok false)" if isand else "(if %s then Ok true else %s)") % (first, acc))
+
+    @staticmethod
+    def is_not_none(t, env):
+        return (isinstance(t, ast.Compare) and len(t.ops) == 1 and isinstance(t.ops[0], ast.IsNot) and isinstance(t.left, ast.Name)
+                and isinstance(t.comparators[0], ast.Constant) and t.comparators[0].value is None and env.get(t.left.id, ("",))[0] == "optnet")
 
     def setter_of(self, cls, attr, node):
         """(defining class, setter method name, state field) of `attr = property(lambda self: self._<field>, <setter>, ..)`"""
@@ -2114,6 +2172,32 @@ class FnE(Fn):
             if tys == ["int", "int", "int", "mitem"]:
                 return ("rtup", "(%s, Some %s)" % (", ".join(t for _, t in items[:3]), items[3][1]))
             bad(node, "tuple other than (int, int, int[, IPNetwork-or-IPRange object])")
+        if isinstance(node, ast.BoolOp) and isinstance(node.op, ast.And) and self.is_not_none(node.values[0], env):
+            return self.boolop_sc(node, env)
+        if isinstance(node, ast.Compare) and len(node.ops) == 1 and type(node.ops[0]) in TUPLE_CMP:
+            snap = self.snapshot()              # comparison of two tuples of ints (the results of key() / sort_key()): lexicographic
+            try:
+                (lty, l), (rty, r) = self.ex(node.left, env), self.ex(node.comparators[0], env)
+            except Untranslatable:
+                lty = rty = None
+            if lty == "tuple" and rty == "tuple":
+                return ("bool", "(%s %s %s)" % (TUPLE_CMP[type(node.ops[0])], l, r))
+            self.restore(snap)
+        if isinstance(node, ast.Compare) and len(node.ops) == 1 and isinstance(node.ops[0], (ast.In, ast.NotIn)):
+            snap = self.snapshot()              # x in y / x not in y for an IPNetwork-valued y: its translated __contains__
+            try:
+                (lty, l), (rty, r) = self.ex(node.left, env), self.ex(node.comparators[0], env)
+            except Untranslatable:
+                lty = rty = None
+            if rty == "net" and lty in ("obj", "net"):
+                opnd = "(OAddr %s %s)" % (l[0], l[2]) if lty == "obj" else "(ONet (nver %s) (nval %s) (nplen %s))" % (l, l, l)
+                res = self.generated(node, "IPNetwork", "__contains__", self.net_state(r), [("operand", opnd)])
+                if isinstance(node.ops[0], ast.In):
+                    return res
+                h = self.fresh()
+                self.hoist(node, ("bind", h, res[2]))
+                return ("bool", "(negb %s)" % h)
+            self.restore(snap)
         if isinstance(node, ast.BoolOp):
             snap = self.snapshot()
             try:
@@ -2179,8 +2263,36 @@ class FnE(Fn):
                     for (ty, t), (_, pty) in zip(args, d.params)]
         return self.generated(node, None, name, "", args)
 
+    def listcomp(self, node, env):
+        g = node.generators
+        if (len(g) == 1 and not g[0].ifs and not g[0].is_async and isinstance(g[0].target, ast.Name) and isinstance(node.elt, ast.Call)
+                and dotted(node.elt.func) == "IPNetwork" and "IPNetwork" not in env and "IPNetwork" in self.mod.classes
+                and len(node.elt.args) == 1 and not node.elt.keywords and isinstance(node.elt.args[0], ast.Name)
+                and node.elt.args[0].id == g[0].target.id):
+            ty, t = self.ex(g[0].iter, env)     # [IPNetwork(x) for x in xs] for IPNetwork-valued xs: copies (the identity on the model)
+            if is_list(ty) and ty[1].find().t == "net":
+                return (("list", Cell("net")), t)
+            bad(node, "[IPNetwork(x) for x in xs] over %s" % show(ty))
+        return super().listcomp(node, env)
+
     def call(self, node, env):
         f = node.func
+        if (isinstance(f, ast.Name) and f.id == "num_bits" and f.id not in env and self.mod.imports.get("num_bits") == "netaddr.core.num_bits"
+                and len(node.args) == 1 and not node.keywords and core_num_bits_ok()):
+            return ("int", "(py_num_bits %s)" % self.int_(node.args[0], env))      # int.bit_length: SrcPreludeCmp.py_num_bits
+        if self.builtin_call(node, "hash", env, 1):
+            ty, t = self.ex(node.args[0], env)   # hash(<tuple of ints>): CPython's hash is not modelled; it is the parameter `hash_`
+            if ty != "tuple":
+                bad(node, "hash() of %s" % show(ty))
+            if ("hash_", "hashfn") not in self.statevars:
+                self.coqname(node, "hash")
+                self.statevars.append(("hash_", "hashfn"))
+            return ("int", "(hash_ %s)" % t)
+        if self.builtin_call(node, "sorted", env, 1):
+            ty, t = self.ex(node.args[0], env)  # sorted(l) for a list of IPNetwork objects: SrcPreludeMatch.py_sorted_nets
+            if not (is_list(ty) and ty[1].find().t == "net"):
+                bad(node, "sorted() of %s" % show(ty))
+            return (("list", Cell("net")), "(py_sorted_nets %s)" % t)
         if (isinstance(f, ast.Name) and f.id == "IPAddress" and f.id not in env and len(node.args) == 1 and not node.keywords
                 and isinstance(node.args[0], ast.Name) and env.get(node.args[0].id, ("",))[0] == "obj"):
             return env[node.args[0].id]          # IPAddress(x) of an IPAddress-valued x: a copy, (version, value) unchanged
@@ -2220,8 +2332,10 @@ class FnE(Fn):
     # ---- statements
     def block(self, stmts, env, k, after):
         for key, val in list(env.items()):       # a parameter declared `obj`: (version, width, value, the pair itself)
-            if not key.startswith("@") and val[0] == "obj" and isinstance(val[1], str):
+            if not key.startswith("@") and val[0] in ("obj", "objv") and isinstance(val[1], str):
                 env[key] = ("obj", self.objvar(val[1]))
+        if stmts and isinstance(stmts[0], ast.Try) and self.is_notimplemented_try(stmts[0]):
+            return self.try_notimplemented(stmts[0], env)
         if stmts and isinstance(stmts[0], ast.Delete):
             s, rest = stmts[0], list(stmts[1:])
             tgt = s.targets[0] if len(s.targets) == 1 else None
@@ -2235,6 +2349,48 @@ class FnE(Fn):
             cn, env2 = self.bind_local(s, l, lty, env)
             return self.wrap(pre, ("bind", cn, "(py_delitem %s %s)" % (lt, i), self.block(rest, env2, k, after)))
         return super().block(stmts, env, k, after)
+
+    def loop(self, s, rest, env, k, after):
+        env = dict(env)                          # an IPAddress object read inside a loop is carried as the pair (version, value)
+        for x in loaded_names(([s.test] if isinstance(s, ast.While) else []) + s.body):
+            if x in env and env[x][0] == "obj" and not isinstance(env[x][1], str):
+                env[x] = ("objv", env[x][1][3])
+        return super().loop(s, rest, env, k, after)
+
+    @staticmethod
+    def is_notimplemented_try(s):
+        h = s.handlers[0] if len(s.handlers) == 1 else None
+        return (h is not None and not s.orelse and not s.finalbody and len(s.body) == 1 and isinstance(s.body[0], ast.Return)
+                and s.body[0].value is not None and len(h.body) == 1 and isinstance(h.body[0], ast.Return)
+                and isinstance(h.body[0].value, ast.Name) and h.body[0].value.id == "NotImplemented")
+
+    def try_notimplemented(self, s, env):
+        """try: return <e> / except (AttributeError, TypeError): return NotImplemented, where <e> reads a parameter declared `operand`:
+        for the three BaseIP kinds <e> must be translated without anything that can raise (then the handler is dead and the
+        statement is `return <e>`); for anything else the attribute read raises, the method answers NotImplemented and Python goes
+        on to the reflected operation: out of scope, `Raise Unsupported`."""
+        h = s.handlers[0]
+        hs = h.type.elts if isinstance(h.type, ast.Tuple) else [h.type]
+        if (not all(isinstance(c, ast.Name) and c.id in EXN and c.id not in env and not self.mod.toplevel(c.id) for c in hs)
+                or "AttributeError" not in [c.id for c in hs] or "NotImplemented" in env or self.mod.toplevel("NotImplemented")
+                or env["@mut"] or env["@break"] is not None):
+            bad(s, "try statement other than `try: return <e> / except (AttributeError, ..): return NotImplemented`")
+        ops = [x for x in loaded_names(s.body) if env.get(x, ("",))[0] == "operand"]
+        if len(ops) != 1:
+            bad(s, "`try: return <e> / except ..: return NotImplemented` that does not read exactly one operand parameter")
+        x, arms = ops[0], []
+        for kind, fields in OPERAND:
+            if kind == "OOther":
+                arms.append((kind, [], ("raise", "Unsupported")))
+                continue
+            aenv = dict(env)
+            names = [self.coqname(s, "%s_%s" % (x, f)) for f in fields]
+            aenv[x] = (("opnd", kind, dict(zip(fields, names))), None)
+            r = self.rhs(s.body[0].value, aenv)
+            if r[0] == "out" or self.pre or not (r[0] in ("int", "bool") or is_value(r[0])):
+                bad(s, "the body of `try: return <e> / except ..: return NotImplemented` can raise (or is no value) for a %s operand" % kind)
+            arms.append((kind, names, self.leaf(aenv, r[0], r[1])))
+        return ("omatch", env[x][1], arms)
 
     def return_(self, s, env):
         if getattr(s, "gen_state", None) is not None:        # the end of a generator's prologue: the state its loop starts in
@@ -2258,6 +2414,17 @@ class FnE(Fn):
 
     def assign(self, s, env, go):
         tgt = s.targets[0] if isinstance(s, ast.Assign) and len(s.targets) == 1 else s.target if isinstance(s, ast.AugAssign) else None
+        if (isinstance(s, ast.Assign) and isinstance(tgt, ast.Name)
+                and SRCE_LOCALS.get((self.recv, self.name, tgt.id)) == "optnet"):
+            if isinstance(s.value, ast.Constant) and s.value.value is None:     # a local declared `None or an IPNetwork object`
+                cn, env = self.bind_local(tgt, tgt.id, "optnet", env, s.value)
+                return ("let", cn, "None", go(env))
+            ty, t = self.ex(s.value, env)
+            if ty != "net":
+                bad(s, "assignment of %s to %s, declared None-or-IPNetwork" % (show(ty), tgt.id))
+            pre = self.take_pre()
+            cn, env = self.bind_local(tgt, tgt.id, "optnet", env, s.value)
+            return self.wrap(pre, ("let", cn, "(Some %s)" % t, go(env)))
         if (isinstance(s, ast.Assign) and isinstance(tgt, ast.Subscript) and isinstance(tgt.value, ast.Name)
                 and is_list(env.get(tgt.value.id, ("",))[0]) and not isinstance(tgt.slice, ast.Slice)):
             l = tgt.value.id                     # l[i] = e (the value first, then the index, as Python evaluates them)
